@@ -328,7 +328,19 @@ def r4(run: Run, src):
     starts = any((x.endswith(".find('=') == 0") or x.endswith(".startswith('=')") or x.endswith("[0] == '='") or
                   x.endswith("[:1] == '='")) and pol for x, pol in texts)
     shown = ' and '.join(('' if pol else 'not ') + x for x, pol in texts)
-    run.check(is_str and starts and len(texts) == 2, 'C18.R4', 'CellTranslator/formula-test', 'formula-test',
+    # further conjuncts are harmless when a str that starts with "=" always satisfies them (not None, non-empty)
+    def implied(x, pol):
+        if x.startswith('isinstance(') and x.endswith(', str)') and pol:
+            return True
+        if (x.endswith(".find('=') == 0") or x.endswith(".startswith('=')") or x.endswith("[0] == '='") or x.endswith("[:1] == '='")) and pol:
+            return True
+        if (x.endswith(' is None') and not pol) or (x.endswith(' is not None') and pol):
+            return True
+        if (x.endswith(" == ''") and not pol) or (x.endswith(" != ''") and pol):
+            return True
+        return False
+    extra = [(x, pol) for x, pol in texts if not implied(x, pol)]
+    run.check(is_str and starts and not extra, 'C18.R4', 'CellTranslator/formula-test', 'formula-test',
               f'a cell is treated as a formula when `{shown[:100]}`; expected: it is a str and starts with "="',
               fact=shown[:80], loc=loc_of(fi.module.path, lex[0]))
 
